@@ -18,7 +18,12 @@ class Unsupported(Exception):
     pass
 
 
-class BroadcastError(Unsupported):
+class RuntimeFailure(Unsupported):
+    """The analysed statement raises at run time for the evaluated call form (a fact about the
+    code, not a limit of the evaluator)."""
+
+
+class BroadcastError(RuntimeFailure):
     """Two arrays of known shape that numpy itself cannot broadcast: the statement raises
     ValueError at run time (a fact about the analysed code, not a limit of the evaluator)."""
 
@@ -1127,6 +1132,10 @@ class SymEval:
                 keep_sample = False
             elif isinstance(first, Opaque):
                 keep_sample = True
+            elif isinstance(first, int) and first not in (0, -1) and \
+                    getattr(arr, 'lead_one', False) and not self.stacked:
+                raise RuntimeFailure('index %d is out of bounds for the leading axis of length 1'
+                                     % first)
             else:
                 raise Unsupported('index on sample axis: %r' % (first,))
         else:
@@ -1456,7 +1465,9 @@ class SymEval:
             if isinstance(v, (list, tuple)):
                 v = self.to_array(v)
             if isinstance(v, SArray) and len(v.shape) == 1 and not v.sample:
-                return SArray(v.shape, v.entries, v.default, True)
+                out = SArray(v.shape, v.entries, v.default, True)
+                out.lead_one = True         # (k,) -> (1, k): the leading axis has length 1
+                return out
             return v
         if q == 'numpy.square':
             return self.emap(lambda x: A.mul(x, x), args[0])
@@ -1597,7 +1608,7 @@ class SymEval:
             v = args[0]
             if isinstance(v, SArray):
                 if v.sample:
-                    return Opaque('len')
+                    return 1 if getattr(v, 'lead_one', False) else Opaque('len')
                 return v.shape[0]
             if isinstance(v, (list, tuple, str, dict)):
                 return len(v)
